@@ -261,6 +261,58 @@ pub fn run(ctx: &Ctx) -> Report {
             }
         }
     }
+    // many pieces with few neighbours: the placement field gets as long as a FEN allows (65-71 characters)
+    let scattered = ctx.tier.pick(4000, 60_000) / ctx.shard_count() as u32;
+    run_prop(ctx, "c07-scattered", scattered, 500, gen::synth_strategy(), &mut rep, |ent, rep| {
+        let mut e = Entropy::new(ent);
+        let mut p = Pos::empty();
+        let parity = e.pick(2) as i32;
+        let cells: Vec<usize> = (0..64).filter(|&s| (o::file_of(s) + o::rank_of(s)) % 2 == parity).collect();
+        let wk = cells[e.pick(cells.len())];
+        let bkc: Vec<usize> = cells.iter().copied().filter(|&s| (o::file_of(s) - o::file_of(wk)).abs().max((o::rank_of(s) - o::rank_of(wk)).abs()) > 1).collect();
+        let bk = bkc[e.pick(bkc.len())];
+        p.sq[wk] = o::mk(true, o::K);
+        p.sq[bk] = o::mk(false, o::K);
+        let mut count = [[0u32; 7]; 2];
+        for &s in &cells {
+            if p.sq[s] != 0 || e.pick(8) == 0 {
+                continue;
+            }
+            let white = e.pick(2) == 0;
+            let ci = if white { 0 } else { 1 };
+            let men: u32 = count[ci].iter().sum();
+            if men >= 15 {
+                continue;
+            }
+            let back = !(1..=6).contains(&o::rank_of(s));
+            let mut t = [o::P, o::P, o::P, o::N, o::B, o::R, o::Q][e.pick(7)];
+            if t == o::P && (back || count[ci][o::P as usize] >= 8) {
+                t = o::N;
+            }
+            // keep material legal: promoted pieces need missing pawns
+            let base = if t == o::Q { 1 } else { 2 };
+            let promoted: u32 = [o::N, o::B, o::R, o::Q].iter().map(|&x| count[ci][x as usize].saturating_sub(if x == o::Q { 1 } else { 2 })).sum();
+            if t != o::P && count[ci][t as usize] >= base && promoted + 1 + count[ci][o::P as usize] > 8 {
+                continue;
+            }
+            p.sq[s] = o::mk(white, t);
+            count[ci][t as usize] += 1;
+        }
+        p.wtm = e.pick(2) == 0;
+        p.hmc = e.pick(60) as u32;
+        p.fmn = 1 + e.pick(200) as u32;
+        if p.is_valid_start().is_err() {
+            rep.class("scattered:rejected");
+            return Ok(());
+        }
+        let fen = p.to_fen();
+        let plen = fen.split(' ').next().unwrap_or("").len();
+        rep.class(if plen > 64 { "fen:placement>64-chars" } else { "fen:scattered" });
+        rep.nontrivial(o::hash_str(&fen));
+        rep.sample_for("scattered", || json!({"fen": fen, "placement_chars": plen}));
+        let Some((want, board)) = check_fields(&fen, rep)? else { return Ok(()) };
+        check_behaviour(&fen, &want, &board, None, &[], rep)
+    });
     let cases = ctx.tier.pick(160_000, 3_000_000) / ctx.shard_count() as u32;
     run_prop(ctx, "c07-fens", cases, 3000, strategy(), &mut rep, |c, rep| fen_case(c, &corp, rep));
     rep
@@ -295,7 +347,7 @@ pub fn replay(_ctx: &Ctx, case: &Value) -> Report {
 }
 
 pub const LEVEL: &str = "exploration";
-pub const RULE: &str = "valid FEN strings built by construction: the oracle's rendering of synthesised positions (all consistent castling-flag subsets, e.p. squares for both colours, half-move clocks 0..150, move numbers 1..6000) and of positions reached by generated play (so a 'played twin' exists), in 6-field and 4-field form, plus a constructed table of all 16 flag subsets x both sides x e.p. x field count and the corpus. Checks: (1) 64 squares, side, 4 rights, e.p. file, clocks == the oracle's own reader of the same string (4-field => 0 and 1), nothing remembered, key == from-scratch key; (2) legal moves / check status / move effects == oracle, key and state == played twin, then up to 12 plies in lock step (state == oracle, key == twin at every step), and make+unmake of every legal move on the loaded board restores it. Non-trivial = FEN with a castling flag, an e.p. square, non-default counters, Black to move or 4 fields; distinct by string.";
+pub const RULE: &str = "valid FEN strings built by construction: the oracle's rendering of synthesised positions (all consistent castling-flag subsets, e.p. squares for both colours, half-move clocks 0..150, move numbers 1..6000) and of positions reached by generated play (so a 'played twin' exists), in 6-field and 4-field form, plus scattered many-piece positions whose placement field reaches 65-71 characters, a constructed table of all 16 flag subsets x both sides x e.p. x field count and the corpus. Checks: (1) 64 squares, side, 4 rights, e.p. file, clocks == the oracle's own reader of the same string (4-field => 0 and 1), nothing remembered, key == from-scratch key; (2) legal moves / check status / move effects == oracle, key and state == played twin, then up to 12 plies in lock step (state == oracle, key == twin at every step), and make+unmake of every legal move on the loaded board restores it. Non-trivial = FEN with a castling flag, an e.p. square, non-default counters, Black to move or 4 fields; distinct by string.";
 pub const ASSUMPTIONS: &[&str] = &[
     "the oracle's FEN reader/writer (round-trip validated on the perft suite at the start of every run)",
     "only valid FEN strings are generated (kings present, flags consistent with king/rook placement, e.p. square consistent with a double push just made, half-move clock 0 when an e.p. square is given)",
